@@ -578,6 +578,39 @@ pub fn o_free_space(prop: &str, ops: &[Op], ex: &Exec) -> V {
     v
 }
 
+/// The hidden cursor of every open file handle agrees with the reference model (offset) and with the independently
+/// decoded cluster chain (the handle's current cluster is the cluster that holds byte offset-1; none at offset 0):
+/// a cursor defect is reported at the call that causes it, not only when a later read or write goes wrong.
+pub fn o_cursor(prop: &str, ops: &[Op], ex: &Exec) -> V {
+    let mut v = V::new();
+    if ex.panic.is_some() || !ex.completed || matches!(ex.outs.last(), Some(Err(e)) if e.is_io()) {
+        return v;
+    }
+    let kind = ops.last().map_or("init", op_kind);
+    let Some(Ok(d)) = &ex.post else { return v };
+    let cs = d.geo.cluster_size();
+    for (i, c) in ex.cursors.iter().enumerate() {
+        let (Some((off, cur)), Some(h)) = (c, &ex.model.fh[i]) else { continue };
+        if *off as u64 != h.pos {
+            push(&mut v, format!("{prop}/cursor/offset/after-{kind}"), format!("handle {i}: the library's cursor is at {off}, the model's at {}", h.pos));
+            continue;
+        }
+        let path = ex.model.path_of(h.nid);
+        let Some(e) = d.find_entry(&path) else { continue };
+        if !e.chain_ok {
+            continue;
+        }
+        let want = if *off == 0 { None } else { e.chain.get(((*off as u64 - 1) / cs) as usize).copied() };
+        if *off != 0 && want.is_none() {
+            continue; // chain shorter than the cursor: reported by the invariants
+        }
+        if *cur != want {
+            push(&mut v, format!("{prop}/cursor/current-cluster/after-{kind}"), format!("handle {i} on {path} at offset {off}: current cluster {cur:?}, the chain {:?} says {want:?}", &e.chain[..e.chain.len().min(6)]));
+        }
+    }
+    v
+}
+
 /// C10: FAT copies / reserved entries / padding entries / reserved nibbles.
 pub struct FatBaseline {
     pub entry0: Vec<u32>,
